@@ -475,8 +475,10 @@ class RefTraj:
             lo = NP.flat(np.asarray(rel[2], dtype=float) - np.asarray(rel[1], dtype=float))
             hi = NP.flat(np.asarray(rel[3], dtype=float) - np.asarray(rel[2], dtype=float))
             for a, b in zip(lo, hi):
-                out.append((origin, "ineq", float(a) / scale))
-                out.append((origin, "ineq", float(b) / scale))
+                if np.isfinite(a):
+                    out.append((origin, "ineq", float(a) / scale))
+                if np.isfinite(b):          # an infinite bound is no row
+                    out.append((origin, "ineq", float(b) / scale))
         return out
 
     def con_points(self, c):
